@@ -216,7 +216,9 @@ def sub_ws(md, acc):
 DEST = ["/l[0]", "<x y]z>", "u", "/a b", "<a b>", "a(b)", "a\\)b", "&amp;", "%20", "é", "<>", "a\\*b", "a&#42;b", "javascript:x", "#f", "?q=1&r",
         "a\"b", "<a\\>b>", "", "[x]:y"]
 TITLE = [None, '"s [1]"', "'w]'", '"t"', "'t'", "(t)", '"a\\"b"', '"&amp;"', '"a\nb"', '"é<>"', "'it\\'s'", '""', '"(x)"', "(a\\)b)",
-         '"a\\\nb"', "'a\\\n\\\nb'", '"see\n[1]: the note"', "'a\n[r]: /other'", "(a\n> b)", '"a\nb: c\n[d]"']
+         '"a\\\nb"', "'a\\\n\\\nb'", '"see\n[1]: the note"', "'a\n[r]: /other'", "(a\n> b)", '"a\nb: c\n[d]"',
+         # a later title line that starts another block: it ends the definition exactly as it ends the paragraph
+         '"a\n- b"', '"a\n1. b"', '"a\n***"', '"a\n# b"', "'a\n```'", '"a\n<div>"']
 TEXT = ["x", "*x*", "`c`", "a\\]b", "![i](j)", "&amp;", "[y]"]
 
 
